@@ -447,3 +447,8 @@ def _model_glass(ct, tier, seed):
 
 contract('C18.model_glass', ['optiland/materials/abbe.py:AbbeMaterial.n', 'optiland/materials/abbe.py:AbbeMaterial._get_coefficients',
                              'optiland/materials/abbe.py:AbbeMaterial.k'], ['C18'], custom=_model_glass)(lambda c: None)
+
+
+# concrete inputs found by the defect-hunting sub-agents (bounded replay, see contracts/hunt.py)
+from . import hunt as _hunt  # noqa: E402
+_hunt.register('C18')
